@@ -314,6 +314,20 @@ def gen_case(rng, big=False):
                 vals = [rng.randint(-20, 60) / 4.0 for _ in range(m)]
             w = {"as": mode, "values": vals}
         case.update(op="kruskal", kind="edge", root=rng.randrange(nv), avoid_boundary=rng.random() < 0.35, weights=w)
+    # every accessor is read twice, in an order chosen here
+    case["read_order"] = rng.randrange(12)
+    # multi-step scenarios: a persistent geometric attribute computed BEFORE the vertices move to their final place
+    # (mesh["V"] is the final geometry, mesh["pre_V"] the one the mesh is built with), or a pre-existing attribute
+    # with a colliding name holding arbitrary values
+    r = rng.random()
+    if r < (0.45 if what == "kruskal" else 0.12):
+        mesh2 = dict(mesh)
+        mesh2["pre_V"] = [[rng.randint(-6, 6), rng.randint(-6, 6), rng.randint(-3, 3)] for _ in range(nv)]
+        case["mesh"] = mesh2
+        case["pre"] = {"persist_length": True}
+    elif r < (0.7 if what == "kruskal" else 0.2):
+        case["pre"] = {"preset_length": [rng.choice([0.0, 1.0, 2.5, -3.0, 100.0, 7.25]) for _ in range(17)],
+                       "dense": rng.random() < 0.5}
     if case["op"] in ("tree", "kruskal") and rng.random() < 0.02:
         n_el = {"edge": nv, "face": nf, "cell": nc}[case["kind"]]
         case["root"] = n_el + rng.randrange(3)   # not an element: the constructor / compute must raise
@@ -616,6 +630,8 @@ def oracle(case, res):
             return None if res["err"] is not None else "a root that is not an element was accepted"
         if res["err"] is not None:
             return "valid root rejected with " + res["err"]
+    if res.get("unstable"):
+        return "reading the public tables twice / in another order changes the answers: " + "; ".join(res["unstable"][:2])
     adj = oracle_graph(case, res)
     if case["op"] == "tree":
         return oracle_tree_obs(case, res, res, eff_root(case, res), adj)
@@ -745,6 +761,11 @@ def shrink_case(case, msg, max_rounds=14):
             c = json.loads(json.dumps(cur))
             c["avoid_boundary"] = False
             cands.append(c)
+        if cur.get("pre"):
+            c = json.loads(json.dumps(cur))
+            c.pop("pre")
+            c["mesh"].pop("pre_V", None)
+            cands.append(c)
         if not cands:
             break
         cands = cands[:80]
@@ -787,7 +808,11 @@ def run(ctx):
                 "random renumbering / rotation / shuffling; operations: edge/face/cell trees with random roots, exclusion "
                 "sets of density 0-60% or None, avoid_boundary; forests; Kruskal with weights one/length/dict/Attribute "
                 "(ties, negatives, dyadic); all roots on meshes of <= 14 elements. Non-trivial = the root's component has "
-                ">= 3 elements (trees, Kruskal) or the forest has >= 2 trees or >= 3 elements; distinct = canonical JSON of the case")
+                ">= 3 elements (trees, Kruskal) or the forest has >= 2 trees or >= 3 elements; distinct = canonical JSON of the case. "
+                "Every public table/accessor of trees and forests is read twice in two case-chosen orders and each tree is "
+                "re-inspected after the forest-level reads (answers must not change); 12-45% of the cases are multi-step: "
+                "attributes.edge_length computed persistently before the vertices move to their final position, or a "
+                "pre-existing 'length' edge attribute with arbitrary values")
     ctx.assumptions += [
         "elements are 0..n-1; the model receives the neighbour slots of every element as the implementation's own public "
         "connectivity queries return them (order included); the oracle rebuilds the adjacency from mesh.edges/faces/cells",
@@ -856,6 +881,9 @@ def run(ctx):
             ctx.count("with exclusion set")
         if c.get("avoid_boundary"):
             ctx.count("avoid_boundary")
+        if c.get("pre"):
+            ctx.count("scenario " + ("persistent edge_length then vertices moved" if c["pre"].get("persist_length")
+                                     else "pre-existing 'length' attribute with arbitrary values"))
         if c["op"] == "kruskal":
             w = c["weights"]
             ctx.count("weights " + (w if isinstance(w, str) else w["as"]))
@@ -874,7 +902,8 @@ def run(ctx):
         if c["op"] in ("tree", "kruskal") and c.get("root") is None:
             ctx.count("root drawn by the constructor")
         ctx.case_seen([c["mesh"]["V"], c["mesh"]["E"], c["mesh"]["F"], c["mesh"]["C"], c["op"], c["kind"], c.get("root"),
-                       c.get("excl"), c.get("avoid_boundary"), c.get("weights") if isinstance(c.get("weights"), str) else "custom"],
+                       c.get("excl"), c.get("avoid_boundary"), c.get("weights") if isinstance(c.get("weights"), str) else "custom",
+                       c.get("pre"), c["mesh"].get("pre_V"), c.get("read_order")],
                       nontrivial=nontriv,
                       sample={"op": c["what"], "mesh": c["mesh"]["shape"], "root": c.get("root"),
                               "n": o.get("n"), "edges": o.get("edges", [])[:8]} if nontriv else None)
